@@ -396,6 +396,18 @@ func noSide() string { return "[]" }
 
 func rowsTerm(rows [][]int64) string { return vf.ZListList(rows) }
 
+// changedTerm lists every (index, row) of the re-read rows that differs from
+// the rows as delivered: a lossless encoding of the re-read.
+func changedTerm(now, later [][]int64) string {
+	var items []string
+	for i := range later {
+		if i >= len(now) || !reflect.DeepEqual(now[i], later[i]) {
+			items = append(items, vf.Tuple(vf.Nat(i), vf.ZList(later[i])))
+		}
+	}
+	return vf.List(items)
+}
+
 // rleTerm is a lossless run-length encoding of rows: [(row, repetitions); ...].
 func rleTerm(rows [][]int64) string {
 	var items []string
@@ -687,7 +699,16 @@ func build(d Desc) (b built, err error) {
 		for i, o := range b.out {
 			types[i] = o.typ
 		}
-		frames, berr := exec.VerifC17BufferOutput(context.Background(), slicetype.New(types...), b.r)
+		// bufferOutput reads to EOF: bound the number of reads so that a reader
+		// that never ends is an observation (an error), not a hang of the driver
+		limit := 64
+		for _, in := range d.Ins {
+			limit += len(in)
+			for _, rs := range in {
+				limit += 8 * len(rs.Rows)
+			}
+		}
+		frames, berr := exec.VerifC17BufferOutput(context.Background(), slicetype.New(types...), &limited{r: b.r, left: limit})
 		if berr != nil {
 			b.r = sliceio.ErrReader(berr)
 		} else {
@@ -696,6 +717,20 @@ func build(d Desc) (b built, err error) {
 		b.kind = vf.App("KBufOut", b.kind)
 	}
 	return b, nil
+}
+
+// limited fails after a number of reads (harness watchdog for read-to-EOF loops).
+type limited struct {
+	r    sliceio.Reader
+	left int
+}
+
+func (l *limited) Read(ctx context.Context, f frame.Frame) (int, error) {
+	if l.left <= 0 {
+		return 0, stderrors.New("harness: reader did not end within the read limit")
+	}
+	l.left--
+	return l.r.Read(ctx, f)
 }
 
 // ---------------------------------------------------------------- driving
@@ -926,28 +961,31 @@ func runCase(d Desc) (vf.Case, error) {
 		if k > len(c.dest) {
 			k = len(c.dest)
 		}
-		cs[i] = vf.App("mkCall", vf.Nat(c.d), vf.Nat(n), c.st, rowsTerm(c.dest[:k]), rleTerm(c.dest[k:]), rowsTerm(c.later))
+		cs[i] = vf.App("mkCall", vf.Nat(c.d), vf.Nat(n), c.st, rowsTerm(c.dest[:k]), rleTerm(c.dest[k:]), changedTerm(c.dest[:k], c.later))
 		final = c.st
 		total += n
 	}
 	term := vf.App("mkCase", b.kind, vf.List(ins), vf.List(cs), b.side())
+	// finding signature: the reader kind plus the one input/observation feature
+	// that explains a violation of this kind (identical for cases failing for
+	// the same reason)
 	sig := d.Kind
-	if eofRows {
-		sig += "+eofrows"
-	}
-	if emptyRead {
-		sig += "+emptyread"
-	}
-	if tailTouched {
-		sig += "+tailwritten"
-	}
+	pan, hang := false, false
 	for _, c := range calls {
-		if c.st == "(SErr 9)" {
-			sig += "+panic"
-		}
-		if c.st == "(SErr 10)" {
-			sig += "+hang"
-		}
+		pan = pan || c.st == "(SErr 9)"
+		hang = hang || c.st == "(SErr 10)"
+	}
+	switch {
+	case pan:
+		sig += ":panic"
+	case hang:
+		sig += ":hang"
+	case strings.HasPrefix(d.Kind, "multi-") && eofRows:
+		sig += ":rows-returned-with-eof-dropped"
+	case d.Kind == "reduce" && emptyRead:
+		sig += ":empty-read-ends-input"
+	case tailTouched && !rowsDiffer(d, calls, final):
+		sig += ":destination-written-past-count"
 	}
 	nontriv := ""
 	if len(calls) >= 2 && total > 0 {
@@ -959,6 +997,54 @@ func runCase(d Desc) (vf.Case, error) {
 	}
 	return vf.Case{Term: term, Desc: d, Sig: sig, Nontriv: nontriv, Kind: bucket,
 		Observed: map[string]interface{}{"calls": len(calls), "rows": total, "final": final, "input_rows": nrows}}, nil
+}
+
+// rowsDiffer is used for finding signatures only (never for the verdict): for
+// the two readers whose known deviation is "writes past the reported count",
+// it tells whether the delivered rows ALSO deviate from the expected ones, so
+// that such a case does not carry the known signature.
+func rowsDiffer(d Desc, calls []callObs, final string) bool {
+	if d.Kind != "head" && d.Kind != "readerfunc" {
+		return false
+	}
+	var want [][]int64
+	for _, r := range d.Ins[0] {
+		if r.K == "fail" {
+			break
+		}
+		want = append(want, r.Rows...)
+		if r.K == "eof" {
+			break
+		}
+	}
+	if d.Kind == "head" {
+		n := int(d.p(0))
+		if n < 0 {
+			n = 0
+		}
+		if n < len(want) {
+			want = want[:n]
+		}
+	}
+	var got [][]int64
+	for _, c := range calls {
+		n := c.n
+		if n > len(c.dest) {
+			n = len(c.dest)
+		}
+		if n > 0 {
+			got = append(got, c.dest[:n]...)
+		}
+	}
+	if len(got) > len(want) || (final == "SEof" && len(got) != len(want)) {
+		return true
+	}
+	for i := range got {
+		if !reflect.DeepEqual(got[i], want[i]) {
+			return true
+		}
+	}
+	return false
 }
 
 // ---------------------------------------------------------------- generators
@@ -1126,6 +1212,13 @@ func genCase(r *vf.Rand, kind string, size int) Desc {
 		}
 		d.Ins = append(d.Ins, genScript(r, oi))
 	}
+	if base == "decoding" { // an unreadable stream has one error class
+		for i := range d.Ins[0] {
+			if d.Ins[0][i].K == "fail" {
+				d.Ins[0][i].E = 1
+			}
+		}
+	}
 	if base == "cogroup" || base == "fold" { // keys collide, values are arbitrary
 		for _, s := range d.Ins {
 			for _, rs := range s {
@@ -1209,7 +1302,7 @@ func main() {
 		}
 	} else {
 		root := vf.NewRand(opts.Seed)
-		per := 20
+		per := 40
 		if opts.Tier == "thorough" {
 			per = 200
 		}
@@ -1220,7 +1313,7 @@ func main() {
 				if i%5 == 3 {
 					size = 1
 				}
-				if i%20 == 19 {
+				if i%20 == 19 && i < 40 {
 					size = 2
 				}
 				descs = append(descs, genCase(root.Split(), k, size))
